@@ -282,3 +282,32 @@ def path_conditions(func_node, target):
                 return conds
         return conds
     return visit(func_node.body, [])
+
+
+def expand_table_comprehension(func_node, comp):
+    """[x for x, _ in TABLE] / (d for _, d in TABLE) with TABLE a local name bound once to a literal list of tuples -> the selected column
+    as a list of AST nodes (None when the shape is anything else)."""
+    if not isinstance(comp, (ast.ListComp, ast.GeneratorExp)) or len(comp.generators) != 1:
+        return None
+    g = comp.generators[0]
+    if g.ifs or not isinstance(g.iter, ast.Name) or not isinstance(comp.elt, ast.Name):
+        return None
+    defs = [a for a in ast.walk(func_node) if isinstance(a, ast.Assign) and any(isinstance(t, ast.Name) and t.id == g.iter.id for t in a.targets)]
+    stores = [n for n in ast.walk(func_node) if isinstance(n, ast.Name) and n.id == g.iter.id and isinstance(n.ctx, ast.Store)]
+    if len(defs) != 1 or len(stores) != 1 or not isinstance(defs[0].value, (ast.List, ast.Tuple)):
+        return None
+    rows = defs[0].value.elts
+    if isinstance(g.target, ast.Name):
+        return list(rows) if comp.elt.id == g.target.id else None
+    if not isinstance(g.target, (ast.Tuple, ast.List)) or not all(isinstance(e, ast.Name) for e in g.target.elts):
+        return None
+    names = [e.id for e in g.target.elts]
+    if comp.elt.id not in names or names.count(comp.elt.id) != 1:
+        return None
+    k = names.index(comp.elt.id)
+    out = []
+    for r in rows:
+        if not isinstance(r, (ast.Tuple, ast.List)) or len(r.elts) != len(names):
+            return None
+        out.append(r.elts[k])
+    return out
